@@ -113,6 +113,38 @@ pub fn c19_k_arbitrary_str_2() {
     str_case::<2, 4>(1000);
 }
 
+/// concrete shapes (cheap, finish whatever the body looks like): a 2-, 3- and 4-byte character straddling the cut at the capacity, with the
+/// whole character available in the input - the generator must stop before it, never run past the capacity (seed C19-5)
+fn str_concrete<const N: usize>(text: &[u8]) {
+    let mut buf = [0u8; 24];
+    let d = 1000u64.to_le_bytes();
+    let mut i = 0;
+    while i < 8 {
+        buf[i] = d[i];
+        i += 1;
+    }
+    let mut j = 0;
+    while j < text.len() {
+        buf[8 + j] = text[j];
+        j += 1;
+    }
+    let mut u = Unstructured::new(&buf[..8 + text.len()]);
+    match arbitrary_str::<N>(&mut u) {
+        Ok(s) => {
+            assert!(s.len() <= N, "C19: text field beyond its capacity");
+            assert!(spec_utf8_valid(s.as_bytes()), "C19: text field is not well-formed UTF-8");
+        }
+        Err(e) => assert!(matches!(e, Error::NotEnoughData), "C19: unexpected generator error"),
+    }
+}
+#[kani::proof]
+#[kani::unwind(26)]
+pub fn c19_k_arbitrary_str_straddling_char() {
+    str_concrete::<2>(&[0x61, 0xC3, 0xA9, 0x61]);
+    str_concrete::<4>(&[0x61, 0x61, 0x61, 0xE2, 0x82, 0xAC, 0x61]);
+    str_concrete::<4>(&[0x61, 0x61, 0xF0, 0x9F, 0x94, 0x91, 0x61]);
+}
+
 /// declared lengths 0..=5 (below, at and above the capacity), and fewer text bytes than declared
 #[kani::proof]
 #[kani::unwind(26)]
